@@ -42,6 +42,7 @@ const (
 const (
 	keyCycle = "serialize-cycle-stack-overflow"
 	keyOntid = "ontid-remove-key-index-zero"
+	keyCloneCount = "clone-count-checked-only-on-struct-entry"
 )
 
 type runner struct {
@@ -355,6 +356,7 @@ type finding struct {
 	witness    func() wcase
 	matchDeath func(diag string) bool
 	matchPanic func(panicText, stack string) bool
+	matchReply func(rep *wreply) (bool, string) // outcome that is neither a death nor a panic (resource counters)
 	// proxy64: the witness is a scaled-down input whose recursion overflows the worker's 64 MiB
 	// stack; stack use is linear in the generated depth and nothing bounds the depth, so the full
 	// size overflows the 1 GB default too (fullWitness, minutes of CPU, is replayed by
@@ -395,11 +397,31 @@ var findings = []finding{
 		fullWitness: func() wcase {
 			return wcase{Kind: "neo", Code: deepEqualCode(400000), GasLimit: 16100000, Signers: []int{1}}
 		}},
+	// struct clone counter compared with MAX_CLONE_LENGTH only on entry to a struct: a chain of 1024-wide structs
+	// (64 levels, 65,600 items) is deep-copied in full by every SETITEM / APPEND; 24 copies of it are held after
+	// 612 opcodes. Judged on the node's own engine (probe inside ExecuteBlock and PreExecuteContract, ordinary
+	// 20000 gas limit and 2500 gas price) by the live-item counter against 65536 + 1024 x opcodes.
+	{key: keyCloneCount, matchReply: cloneChainOver, witness: func() wcase {
+		return wcase{Kind: "amp", Probe: true, Code: cloneChainCode(64, 24), GasLimit: 20000, GasPrice: 2500, Signers: []int{1}}
+	}},
 	// governance.updateConfig with K = 0 (admin witness required): `L % K`
 	{key: "gov-updateconfig-k-zero", matchPanic: panicIn("integer divide by zero", "governance.UpdateConfig"), witness: func() wcase {
 		return wcase{Kind: "native", Height: 100, Call: &natCall{Contract: hGOV, Method: "updateConfig", Signers: []int{0},
 			Args: (&enc{}).vu(7).vu(1).vu(0).vu(0).vu(5000).vu(5000).vu(10).vu(10000).b}}
 	}},
+}
+
+// cloneChainOver: the program ran to its service call on a node route and the node's executor held more
+// live items there than the bound allows for the opcodes executed.
+func cloneChainOver(rep *wreply) (bool, string) {
+	m := rep.Amp
+	if m == nil {
+		return false, "no meter reading: " + rep.Harness
+	}
+	b := ampBound(m.Ops)
+	what := fmt.Sprintf("after %d opcodes the executor inside ExecuteBlock holds %d live VM items (state %d, %s), the one inside PreExecuteContract %d (state %d, %s), the metered bare executor %d; bound 65536 + 1024 x opcodes = %d",
+		m.Ops, m.BlockPeak, rep.Block.State, rep.Block.Err, m.PrePeak, rep.Pre.State, rep.Pre.Err, m.Final, b)
+	return m.End == "syscall" && (m.BlockPeak > b || m.PrePeak > b), what
 }
 
 func findingByKey(key string) *finding {
@@ -441,6 +463,9 @@ func (r *runner) replayWitness(f *finding) (still bool, what string) {
 		if p.r.Panic != "" && f.matchPanic != nil && f.matchPanic(p.r.Panic, p.r.Stack) {
 			return true, "panic on the " + p.name + " path: " + p.r.Panic + "\n" + p.r.Stack
 		}
+	}
+	if f.matchReply != nil {
+		return f.matchReply(&rep)
 	}
 	return false, fmt.Sprintf("block=%+v sandbox=%+v pre=%+v pool=%+v harness=%s", rep.Block, rep.Sandbox, rep.Pre, rep.Pool, rep.Harness)
 }
@@ -502,6 +527,7 @@ func runWitness(t *testing.T, key string) {
 			}
 		}
 	}
+	t.Logf("witness %s: still fails = %v: %s", f.key, still, firstLines(what, 4))
 	r.ev.Case(true, "witness "+f.key)
 	if !still {
 		r.ev.Class("witness-passes:" + f.key)
@@ -519,6 +545,7 @@ func TestC12_WitnessSerializeCycle(t *testing.T)  { runWitness(t, keyCycle) }
 func TestC12_WitnessOntidIndexZero(t *testing.T)  { runWitness(t, keyOntid) }
 func TestC12_WitnessDeepEqual(t *testing.T)       { runWitness(t, "equal-deep-struct-stack-overflow") }
 func TestC12_WitnessGovUpdateConfig(t *testing.T) { runWitness(t, "gov-updateconfig-k-zero") }
+func TestC12_WitnessCloneCount(t *testing.T)      { runWitness(t, keyCloneCount) }
 
 // scaled lets a developer shrink the quick case counts (VERIF_C12_SCALE=percent); unset = 100 %.
 func scaled(n int) int {
@@ -537,9 +564,13 @@ func scaled(n int) int {
 const ruleText = "cases are executed in a crash-isolating worker that owns a solo ledger (genesis + committed prefix: funded accounts, 3 NeoVM and 3 EVM contracts). " +
 	"(a) NeoVM programs from a grammar (typed and mistyped SYSCALLs of every service name, value builders incl. nested/deep/self-referential containers with the back edge at a generated position, consumers Serialize/Notify/Native.Invoke/EQUAL/..., APPCALL/DCALL/CALL, bounded loops and jumps, framed opcode soup, raw and mutated bytes) run as a signed transaction through ExecuteBlock AND through PreExecuteContract; " +
 	"(b) a generated VALID history of native calls (ONT IDs with keys/controllers/recovery/attributes, approvals, auth roles, governance candidates) applied in a sandbox CacheDB and, as signed NeoVM transactions of one block, through ExecuteBlock, followed by ONE hostile call (contract and method from the method tables enumerated at run time; arguments shaped/mutated/generic atoms/raw bytes; every count, index and amount from a hostile pool 0,1,len-1,len,len+1,2^31,2^32-1,2^32,2^63,2^64-1,2^64,-1); " +
-	"(c) EVM bytecode as creation code, as installed runtime code called in the same block, or calldata to precompiles/native addresses/prefix contracts, through ExecuteBlock, PreExecuteContract(EIP-155 tx) and PreExecuteEip155Tx; (d) transactions offered to the tx pool intake. " +
+	"(c) EVM bytecode as creation code, as installed runtime code called in the same block, or calldata to precompiles/native addresses/prefix contracts, through ExecuteBlock, PreExecuteContract(EIP-155 tx) and PreExecuteEip155Tx; (d) transactions offered to the tx pool intake; " +
+	"(e) NeoVM amplification loops: a leaf container (struct/array/map with 0,1,2,3,16,255,1023 or 1024 primitive items) and 1..48 rounds (uniform; unrolled or as a backward JMP loop) that each build a new node (struct/array/map with 0..1024 primitive filler slots) holding 1-4 copies of / references to the previous value in its first, middle or last slots by APPEND, SETITEM, PACK or by appending a struct to itself, older values dropped or kept on the stack, optionally 1..32 further APPENDs of the result to a fresh array, the final value returned / dropped / serialized / notified - run first on a bare executor driven exactly like NeoVmService.Invoke that counts the live VM items (stack slots + distinct containers + their slots) after every container-allocating opcode, then through ExecuteBlock and PreExecuteContract with the same counter probing the node's own executor on entry to every service call (it must agree with the meter). " +
 	"Violation = worker death by a fatal runtime error (a stack overflow under the worker's 64 MiB limit must reproduce under the node's 1 GB default, except in BuildParamToNative whose recursion is unbounded) or a Go panic on the block / PreExecuteContract / native-call / pool route (no layer of the node recovers there); answers later than 40 s are only counted. " +
-	"Non-trivial = the case entered at least one syscall or native handler (measured by counters wrapped around every registered handler) or executed EVM code (gas used above the intrinsic gas); distinct = different case bytes."
+	"For (e) additionally: live items above 65536 + 1024 x executed opcodes (every opcode is charged >= 1 gas; MAX_ARRAY_SIZE=1024 items per NEWARRAY/NEWSTRUCT/PACK and MAX_CLONE_LENGTH=1024 items per struct copy are meant to cap what one opcode allocates; the largest count seen is recorded as amp_max_live_items) mean memory that multiplies per round / per opcode for constant gas, i.e. memory exhaustion of the node a few rounds later - a violation decided by these deterministic counters (the metered run stops there and the node routes are not entered); a worker killed by its address-space limit is a death; a mere wall-clock timeout stays inconclusive. " +
+	"Known finding clone-count-checked-only-on-struct-entry: its witness (64-level chain of 1024-wide structs nested through slot 0, appended 24 times; 612 opcodes) is replayed through ExecuteBlock and PreExecuteContract with a 20000 gas limit and judged by the probe's count on the node's executor against the same bound; while it is listed and reproduces, an over-bound outcome of exactly the shape it explains (deep-copied struct node with more than 3 filler slots whose nested struct is not in the last slot) is counted as excluded - arrays, maps, narrow structs, nested-last structs and container-only trees over the bound stay violations. " +
+	"Non-trivial (e) = the metered run executed at least one full round and built a container value (live items >= 3); distinct = different code. " +
+	"Non-trivial (other kinds) = the case entered at least one syscall or native handler (measured by counters wrapped around every registered handler) or executed EVM code (gas used above the intrinsic gas); distinct = different case bytes."
 
 func TestC12_NeoVM(t *testing.T) {
 	r := newRunner(t)
@@ -605,6 +636,154 @@ func neoProp(r *runner, methods map[string][]string, noCycleEnc, noDeepEq bool) 
 			t.Fatalf("C12 violated by NeoVM program %x (gas limit %d, gas price %d, signers %v, generator tags %v): %s", code, c.GasLimit, c.GasPrice, c.Signers, tags, viol)
 		}
 	}
+}
+
+// TestC12_Amplify: kind (e). The growth of the value is judged by counters (live items vs executed
+// opcodes) that the worker reports from a metered run, so that "memory doubles per round" is a
+// deterministic VIOLATION long before a machine-dependent out-of-memory kill or timeout.
+func TestC12_Amplify(t *testing.T) {
+	r := newRunner(t)
+	defer r.close()
+	ev := r.ev
+	ev.Rule(ruleText)
+	ev.Assume("the metered run (bare vm.Executor, one ExecuteOp per opcode, feature flags of the next block height) allocates what NeoVmService.Invoke allocates for the same code up to its first SYSCALL")
+	// only the recogniser of the clone-counter finding can apply: the family builds no cycles, compares nothing
+	// with EQUAL and calls no native contract. It is switched on iff the finding is listed AND its witness still
+	// exceeds the bound on the node routes; then - and only then - an over-bound outcome of the shape that root
+	// cause explains (ampSpec.wideNonLast) is counted as excluded instead of reported.
+	r.useAllKnown("amp")
+	wideKnown := r.known[keyCloneCount]
+	ev.Floor("amp:nontrivial", "amp:cases", 0.85)
+	ev.Floor("amp:cloning", "amp:cases", 0.25)
+	// what non-triviality of the memory oracle relies on: deep-copying rounds, enough of them to
+	// pass every guard many times over, on trees with and without primitive items, narrow and wide
+	ev.Floor("amp:cloning:containers-only:rounds>=20", "amp:cases", 0.01)
+	ev.Floor("amp:cloning:with-primitives:rounds>=20", "amp:cases", 0.08)
+	ev.Floor("amp:cloning:wide-node:nested-not-last", "amp:cases", 0.02)
+	ev.Floor("amp:cloning:wide-node:nested-last", "amp:cases", 0.02)
+	ev.Floor("amp:guard-fired:clone-length", "amp:cases", 0.08)
+	ev.Floor("amp:form:loop", "amp:cases", 0.2)
+	ev.Floor("amp:probe:agrees-with-meter", "amp:probe:taken", 0.99)
+	maxPeak := 0
+	defer func() { ev.Extra("amp_max_live_items", maxPeak) }()
+	harn.Check(t, scaled(400), 8000, func(t *rapid.T) {
+		code, sp := genAmpProgram(t)
+		c := wcase{Kind: "amp", Code: code, GasLimit: uint64(pick(t, []int{20000, 50000, 200000, 1000000}, "ampgl")),
+			GasPrice: uint64(pick(t, []int{0, 0, 2500}, "ampgp")), Signers: []int{1}}
+		v := r.exec(c)
+		viol, kk := r.judge(v)
+		desc := fmt.Sprintf("amp %+v gl=%d gp=%d code=%x", sp, c.GasLimit, c.GasPrice, clip(code, 120))
+		m := v.rep.Amp
+		if m == nil {
+			m = &ampRes{End: "no-meter"}
+		}
+		nontrivial := m.Peak >= 3 && m.Ops >= 8
+		if m.Peak > maxPeak {
+			maxPeak = m.Peak
+		}
+		ev.Case(nontrivial, desc)
+		ev.Class("amp:cases")
+		if nontrivial {
+			ev.Class("amp:nontrivial")
+		}
+		ev.Class("amp:node:" + sp.Node)
+		ev.Class("amp:leaf:" + sp.Leaf)
+		ev.Class("amp:method:" + sp.Method)
+		ev.Class("amp:use:" + sp.Use)
+		ev.Class(fmt.Sprintf("amp:fanout:%d", sp.Fanout))
+		if sp.Loop {
+			ev.Class("amp:form:loop")
+		} else {
+			ev.Class("amp:form:unrolled")
+		}
+		if sp.Keep {
+			ev.Class("amp:keep-older-values")
+		}
+		leaves := "with-primitives"
+		if sp.LeafW == 0 && sp.NodeW == 0 {
+			leaves = "containers-only"
+		}
+		ev.Class("amp:" + leaves)
+		ev.Class("amp:node-width:" + bucket(sp.NodeW, 0, 3, 16, 255, 1024))
+		ev.Class("amp:leaf-width:" + bucket(sp.LeafW, 0, 3, 16, 255, 1024))
+		ev.Class("amp:nested-pos:" + sp.Pos)
+		if sp.Copies > 0 {
+			ev.Class("amp:copies-phase")
+		}
+		if sp.Cloning {
+			ev.Class("amp:cloning")
+			ev.Class("amp:cloning:" + leaves)
+			if sp.Rounds >= 20 {
+				ev.Class("amp:cloning:" + leaves + ":rounds>=20")
+			}
+			if sp.NodeW > 3 {
+				if sp.Pos == "last" {
+					ev.Class("amp:cloning:wide-node:nested-last")
+				} else {
+					ev.Class("amp:cloning:wide-node:nested-not-last")
+				}
+			}
+		}
+		ev.Class("amp:rounds:" + bucket(sp.Rounds, 8, 16, 24, 32, 48))
+		ev.Class("amp:peak-items:" + bucket(m.Peak, 16, 256, 1024, 4096, 16384, 65536))
+		ev.Class("amp:meter-end:" + errClass(clipStr(m.End, 48)))
+		switch {
+		case strings.Contains(m.End, "over max struct clone length"):
+			ev.Class("amp:guard-fired:clone-length")
+		case strings.HasPrefix(m.End, "fault:"):
+			ev.Class("amp:guard-fired:other")
+		}
+		switch {
+		case v.timedOut:
+			ev.Class("timeout")
+		case v.died:
+			ev.Class("amp:died")
+		case m.Over:
+			ev.Class("amp:over-bound")
+		default:
+			ev.Class("amp:block:" + shortOutcome(&v.rep.Block))
+			ev.Class("amp:pre:" + shortOutcome(&v.rep.Pre))
+			// the node's own executor, probed on entry to the program's first service call, must hold what the meter counted
+			for _, first := range []int{m.BlockFirst, m.PreFirst} {
+				if first >= 0 && m.End == "syscall" {
+					ev.Class("amp:probe:taken")
+					if first == m.Final {
+						ev.Class("amp:probe:agrees-with-meter")
+					} else if viol == "" {
+						viol = fmt.Sprintf("HARNESS PROBLEM (not a finding): the metered run counts %d live items at the first service call, the executor inside the node %d", m.Final, first)
+					}
+				}
+			}
+		}
+		if kk != "" {
+			ev.Excluded()
+		}
+		if viol == "" && !v.timedOut && !v.died && v.rep.Amp == nil {
+			viol = "HARNESS PROBLEM (not a finding): no meter reading in the worker's reply"
+		}
+		if viol == "" && m.Over && wideKnown && sp.wideNonLast() {
+			// known finding: fillers behind a nested struct are copied without the counter being looked at
+			ev.Class("amp:over-bound:excluded-known-wide-struct")
+			ev.Excluded()
+		} else if viol == "" && m.Over {
+			viol = fmt.Sprintf("unbounded allocation: after %d executed opcodes (>= 1 gas each) the program holds more than %d live VM items (bound 65536 + 1024 x opcodes = %d; the clone-length / array-size / stack guards are there to keep a program far below it). "+
+				"The value multiplies by %d in every round of a few opcodes and %d rounds were requested: memory and time grow exponentially for linear gas, so the node runs out of memory (or never finishes) inside one ExecuteBlock / PreExecuteContract call. The metered run was stopped here; the node routes were not entered.",
+				m.PeakAt, m.Bound, m.Bound, sp.Fanout, sp.Rounds)
+		}
+		if viol != "" {
+			t.Fatalf("C12 violated by NeoVM amplification program %x (shape %+v, gas limit %d): %s", code, sp, c.GasLimit, viol)
+		}
+	})
+}
+
+// bucket names the first limit that n does not exceed.
+func bucket(n int, limits ...int) string {
+	for _, l := range limits {
+		if n <= l {
+			return fmt.Sprintf("<=%d", l)
+		}
+	}
+	return fmt.Sprintf(">%d", limits[len(limits)-1])
 }
 
 // No native `go test -fuzz` target: the Go fuzz worker aborts ("deadlocked!", exit status 2) whenever
